@@ -298,7 +298,7 @@ def parse_model(s):
 # parsing what the observers displayed
 # ------------------------------------------------------------------------------------------------
 PROG = re.compile(r"^(?:\((-?\d+) \+ (-?\d+)\)|(-?\d+)) / (-?\d+)(?:, (-?\d+) failed)?$")
-ELAPSED = re.compile(r"^(?:(\d+)h)?(?:(\d+)m)?(\d+)s$")
+ELAPSED = re.compile(r"^(?:(-?\d+)h)?(?:(\d+)m)?(\d+)s$")
 
 
 def parse_progress(s):
@@ -550,7 +550,9 @@ def _run(ctx, sp, pool, clock, html_sink, C, H, I):
                 if tot != busy + tail:
                     ctx.fail("elapsed-sum", "%s observer: elapsed attributed to scopes sums to %s, time with a call running is %s"
                              % (KN[kind], tot, busy + tail), replay)
-                check_last(ctx, KN[kind], kind, d["renders"], m, replay)
+                # the console never re-prints a section it has printed complete; totals announced for such a section
+                # afterwards (impossible in a run: all totals of a section precede its first running) stay unprinted
+                check_last(ctx, KN[kind], kind, d["renders"], m, replay, soft=(kind == 0 and not case["so"]))
                 for v in m.values():
                     if min(v[:4]) < 0 or v[3] <= 0 or v[0] + v[1] + v[2] > v[3]:
                         ctx.fail("state-inv", "%s observer: counters out of range %r" % (KN[kind], v[:4]), replay)
@@ -627,8 +629,13 @@ def _run(ctx, sp, pool, clock, html_sink, C, H, I):
     sentinel(ctx, sp)
 
 
-def check_last(ctx, kn, kind, renders, m, replay):
+def check_last(ctx, kn, kind, renders, m, replay, soft=False):
     """the last rendering (per section for the console) shows the final counts"""
+    if soft:
+        class Soft:
+            def fail(self, key, what, replay):
+                ctx.count("console-late-total-not-reprinted (sequence not section-ordered)", 1)
+        return check_last(Soft(), kn, kind, renders, m, replay)
     shown = {}
     for r in renders:
         if r is None:
